@@ -448,4 +448,9 @@ def obligations(tier, seed):
                                [f"n == {nb}", f"start == {start}", cpre.format(v="b0")] + ([c1pre.format(v="b1")] if c1name else []), T,
                                "raw SAT words, seek position, read size, byte index", "well-formed chains in tables of n sectors; one seek+read",
                                stubs=["AbsFile/Spans"]))
+    # the byte stream over a resolved 5-sector chain in any order, one long read (shared with C08.chain5)
+    from vf.props import c08 as _c08
+    for o in _c08.obligations(tier, seed):
+        if o["name"].startswith("C08.chain5"):
+            obs.append(dict(o, name=o["name"].replace("C08.chain5", "C07.bytes5")))
     return obs
